@@ -5,9 +5,16 @@ import json, glob, os, subprocess
 R = os.path.dirname(os.path.abspath(__file__))
 props = [json.loads(l)["id"] for l in open(os.path.join(R, "properties.jsonl"))]
 checks = []
+# only properties listed in manifest.d/ready.txt (verified by the lead: quick exits 0 on the unchanged tree for
+# several seeds, evidence validates) are registered; the others stay under not_applicable until they are.
+ready = set()
+rp = os.path.join(R, "manifest.d", "ready.txt")
+if os.path.exists(rp):
+    ready = {l.strip() for l in open(rp) if l.strip() and not l.startswith("#")}
 for f in sorted(glob.glob(os.path.join(R, "manifest.d", "C*.json"))):
     c = json.load(open(f))
-    checks.append(c)
+    if c["property_id"] in ready:
+        checks.append(c)
 claimed = {c["property_id"] for c in checks}
 na_reasons = {}
 p = os.path.join(R, "manifest.d", "na.json")
